@@ -196,6 +196,24 @@ func (w *rWorld) apply(op rOp) (ret string, applicable bool) {
 			nw := o.res.(jsonapi.Copier).New()
 			sameDefs = reflect.DeepEqual(normDefs(o.res.Attrs(), o.res.Rels()), normDefs(nw.Attrs(), nw.Rels()))
 			w.objs = append(w.objs, rObj{impl: implOf(nw, o.impl), res: nw})
+		case "DerivedNew":
+			sr, ok := o.res.(*jsonapi.SoftResource)
+			if !ok {
+				applicable = false
+				return
+			}
+			base := sr.GetType() // the object's type, by value
+			if base.NewFunc != nil {
+				// (a type that carries its own constructor creates what the constructor says)
+				applicable = false
+				return
+			}
+			_ = base.New() // the original type has created a resource
+			derived := base.Copy()
+			derived.Name += "x"
+			nw := derived.New()
+			sameDefs = reflect.DeepEqual(normDefs(derived.Attrs, derived.Rels), normDefs(nw.Attrs(), nw.Rels()))
+			w.objs = append(w.objs, rObj{impl: implOf(nw, "soft"), res: nw})
 		case "TypeCopy":
 			src := o.res.GetType()
 			t := src.Copy()
